@@ -344,6 +344,32 @@ class Trace:
             conv=lambda r: self._asg(r) if r is not None
             else dict(n=[], v=[]))
 
+    def to_expr_rt(self, u, hold=False):
+        return self.call('to_expr_rt', dict(u=u),
+                         lambda: self.bdd.add_expr(self.bdd.to_expr(u)), hold=hold)
+
+    def descendants(self, roots):
+        roots = list(roots)
+        return self.call('descendants', dict(roots=roots),
+                         lambda: self.bdd.descendants(roots), conv=lambda r: sorted(r))
+
+    def size(self, u):
+        return self.call('size', dict(u=u), lambda: len(self.bdd.descendants([u])), conv=int)
+
+    def preimage(self, trans, x, ren, qvars, forall, hold=False):
+        froms = sorted(ren)
+        return self.call(
+            'preimage', dict(trans=trans, x=x, froms=froms, tos=[ren[k] for k in froms],
+                             qvars=sorted(qvars), forall=bool(forall)),
+            lambda: _bdd.preimage(trans, x, dict(ren), set(qvars), self.bdd, forall=forall), hold=hold)
+
+    def image(self, trans, x, ren, qvars, forall, hold=False):
+        froms = sorted(ren)
+        return self.call(
+            'image', dict(trans=trans, x=x, froms=froms, tos=[ren[k] for k in froms],
+                          qvars=sorted(qvars), forall=bool(forall)),
+            lambda: _bdd.image(trans, x, dict(ren), set(qvars), self.bdd, forall=forall), hold=hold)
+
     def cache_keys(self):
         """Keys of the computed table right now (None if unreadable)."""
         try:
